@@ -8,7 +8,7 @@ import someip.sd as S
 from .. import gen, sexp
 from ..common import compare, incoq_crosscheck
 
-ADDRS = {1: ("10.0.0.1", 30490), 2: ("10.0.0.2", 30490), 3: ("2001:db8::3", 30490, 0, 0)}
+ADDRS = {1: ("10.0.0.1", 30490), 2: ("10.0.0.2", 30490), 3: ("2001:db8::3", 30490, 0, 0), 101: ("10.0.0.1", 30491)}   # 101: the host of 1, another port
 IDS = [1, 2, 3, 0x7FFF, 0xFFFE, 0xFFFF]
 
 
@@ -48,13 +48,13 @@ def fanout_history(hist):
 def run(ctx):
     r = ctx.rng
     quick = ctx.tier == "quick"
-    ctx.rule = ("all histories of length <= %d over 2 senders x 2 channels x 2 flags x ids {1,2,3,0x7FFF,0xFFFE,0xFFFF} (exhaustive), plus random "
-                "histories of length <= 200 over 3 senders with random 16-bit ids (0 included with raised probability); each history is run through "
+    ctx.rule = ("all histories of length <= %d over 2 senders (same host, different ports) x 2 channels x 2 flags x ids {1,2,3,0x7FFF,0xFFFE,0xFFFF} (exhaustive), plus random "
+                "histories of length <= 200 over 4 senders (two of them on one host) with random 16-bit ids (0 included with raised probability); each history is run through "
                 "_SessionStorage.check_received, compared with the model and judged by the extracted literal specification spec_detect; a sample is "
                 "run through a real ServiceDiscoveryProtocol to count reboot_detected calls per component; non-trivial = distinct history" % (2 if quick else 3))
     ctx.exhaustive = True
     ctx.assumptions = ["single-threaded use of _SessionStorage (the model has no lock)"]
-    alpha = [(a, mc, f, sid) for a in (1, 2) for mc in (0, 1) for f in (0, 1) for sid in IDS]
+    alpha = [(a, mc, f, sid) for a in (1, 101) for mc in (0, 1) for f in (0, 1) for sid in IDS]   # two senders on ONE host, different ports
     hists = [[(1, 0, 1, 0), (1, 0, 1, 0)]]  # the witness of known finding F12 first
     for n in range(1, (2 if quick else 3) + 1):
         if n < 3:
@@ -71,7 +71,7 @@ def run(ctx):
             sid = 0 if c < 0.04 else r.choice(IDS) if c < 0.4 else r.getrandbits(16)
             if h and r.random() < 0.3:
                 sid = min(0xFFFF, h[-1][3] + r.choice([0, 1, 1, 1, 2]))
-            h.append((r.choice([1, 1, 2, 3]), r.randint(0, 1), int(r.random() < 0.6), sid))
+            h.append((r.choice([1, 1, 2, 3, 101, 101]), r.randint(0, 1), int(r.random() < 0.6), sid))   # 101: another port on the host of sender 1
         hists.append(h)
     cases = [(701, [list(x) for x in h]) for h in hists]
     impl = [impl_history(h) for h in hists]
